@@ -63,9 +63,20 @@ type genNode struct {
 
 type genCallObs struct{ callee, arg string }
 
-func (s *seqRT) ruleGenHist() {
+func (s *seqRT) ruleGenHist() { s.ruleGenHistOpt(false) }
+
+// ruleGenHistPanics additionally lets the generator code panic at every step it is run (SEQ.CHAIN, C18):
+// the panic must come out of the very call that ran the step, and the value delivered before is untouched.
+func (s *seqRT) ruleGenHistPanics() { s.ruleGenHistOpt(true) }
+
+func (s *seqRT) ruleGenHistOpt(withPanics bool) {
 	c := s.c
 	c.min("SEQ.GEN", 10)
+	if withPanics {
+		c.min("SEQ.CHAIN", 2)
+	}
+	chainN := map[string]int{}
+	chainBad := map[string][]string{}
 	in := s.interp()
 	in.MaxDepth = 14
 	it, st0, ok := s.construct(in, "SEQ.GEN", "Start", []AV{Sym{Name: "seq", NN: true}})
@@ -157,10 +168,14 @@ func (s *seqRT) ruleGenHist() {
 			}
 			ref := mkStep(stepT)
 			coRef := cc.Args[0]
-			return []Answer{
+			ans := []Answer{
 				{Label: "yield", Do: func(st *State) { st.Obj(coRef).Fields[stepField] = ref }},
 				{Label: "return", Invoke: []Invocation{{Fn: cc.Args[1], Args: []AV{Sym{Name: "sig"}, Sym{Name: "res", Uniq: true}}}}},
 			}
+			if withPanics {
+				ans = append(ans, Answer{Label: "panic", Panic: true})
+			}
+			return ans
 		case strings.HasPrefix(name, "nx") && len(cc.Args) == 1:
 			sig, _ := cc.Instr.Common().Value.Type().Underlying().(*types.Signature)
 			if sig == nil || sig.Results().Len() != 1 {
@@ -175,7 +190,11 @@ func (s *seqRT) ruleGenHist() {
 			if k0 != nil {
 				ret.Invoke = []Invocation{{Fn: k0, Args: []AV{Sym{Name: "sig"}, Sym{Name: "res", Uniq: true}}}}
 			}
-			return []Answer{{Label: "yield", Ret: []AV{ref}}, ret}
+			ans := []Answer{{Label: "yield", Ret: []AV{ref}}, ret}
+			if withPanics {
+				ans = append(ans, Answer{Label: "panic", Panic: true})
+			}
+			return ans
 		}
 		return nil
 	}
@@ -250,14 +269,11 @@ func (s *seqRT) ruleGenHist() {
 						tag += ":" + strings.Join(choices, "/")
 					}
 					hist := strings.TrimSpace(nd.hist + " " + tag)
-					if o.Panicked {
-						note(op, nd.m, hist, "the method panics")
-						continue
-					}
 					// reference
 					m := nd.m
 					var wantCalls []genCallObs
 					ci := 0
+					stepPanicked := false
 					advance := func(arg string) bool {
 						m.advanced = true
 						if m.done {
@@ -273,6 +289,10 @@ func (s *seqRT) ruleGenHist() {
 							ch = choices[ci]
 						}
 						ci++
+						if ch == "panic" {
+							stepPanicked = true
+							return false
+						}
 						if ch == "yield" {
 							m.nyield++
 							m.cur = fmt.Sprintf("⟨y%d⟩", m.nyield)
@@ -302,6 +322,27 @@ func (s *seqRT) ruleGenHist() {
 					case "Result":
 						want = []string{m.res}
 						checkRet = m.done // before completion the value is unspecified
+					}
+					if stepPanicked {
+						// the step run by this call panicked; m.cur is the value delivered before that step
+						key := op + " whose step panics"
+						chainN[key]++
+						switch {
+						case !o.Panicked:
+							chainBad[key] = append(chainBad[key], "history "+hist+": the panic of the step does not come out of the call that ran it")
+						default:
+							cur := in.Run(o.St.clone(), methods["Current"], []AV{d.V}, nil)
+							if len(cur) != 1 || cur[0].Panicked || len(cur[0].Ret) != 1 {
+								chainBad[key] = append(chainBad[key], "history "+hist+": Current after the panicking call is not a single normal path")
+							} else if got := render(cur[0].Ret[0]); got != m.cur {
+								chainBad[key] = append(chainBad[key], fmt.Sprintf("history %s: after the panicking call Current returns %s, the value delivered before the panicking step was %s (state is overwritten before the step has run)", hist, got, m.cur))
+							}
+						}
+						continue
+					}
+					if o.Panicked {
+						note(op, nd.m, hist, "the method panics")
+						continue
 					}
 					var got []string
 					for _, r := range o.Ret {
@@ -344,6 +385,20 @@ func (s *seqRT) ruleGenHist() {
 			c.ok("SEQ.GEN", k, pos, fmt.Sprintf("%d abstract histories (all interleavings of MoveNext/Send/Current/Result up to length %d, the generator yielding or returning at every step) agree with the iterator protocol", b.n, genHistDepth))
 		} else {
 			c.bad("SEQ.GEN", k, pos, "differs from the iterator protocol: "+b.bad[0], b.bad...)
+		}
+	}
+	if withPanics {
+		var ks []string
+		for k := range chainN {
+			ks = append(ks, k)
+		}
+		sort.Strings(ks)
+		for _, k := range ks {
+			if len(chainBad[k]) == 0 {
+				c.ok("SEQ.CHAIN", k, pos, fmt.Sprintf("%d abstract histories: the panic propagates out of the call that ran the step and Current still returns the value delivered before", chainN[k]))
+			} else {
+				c.bad("SEQ.CHAIN", k, pos, chainBad[k][0], chainBad[k]...)
+			}
 		}
 	}
 	if total < 50 {
